@@ -307,6 +307,11 @@ pub fn by_name(prop: &str) -> Option<Box<dyn crate::campaign::Campaign>> {
     use crate::campaign::Composite;
     use crate::components as comp;
     match prop {
+        "C06" => Some(Box::new(crate::relations::C06)),
+        "C14" => Some(Box::new(crate::relations::C14)),
+        "C11" => Some(Box::new(crate::policy::C11)),
+        "C12" => Some(Box::new(crate::policy::C12)),
+        "C13" => Some(Box::new(crate::policy::C13)),
         "C10" => Some(Box::new(crate::c10::C10)),
         "C15" => Some(Box::new(Composite {
             prop: "C15",
